@@ -26,6 +26,13 @@ pub fn gen_redactions(rng: &mut Rng, ic: &IssuedCase, with_junk: bool) -> Vec<Ve
         sets.push(vec![rng.pick(&parents).clone()]);
     }
     if !with_junk {
+        // a disclosable claim together with its ordinary (not disclosable, existing) enclosing object or array, in
+        // either order: the enclosing node hides nothing, the claim stays redacted
+        let plain_parent: Vec<(String, String)> = paths.iter().filter_map(|p| p.rfind('/').filter(|i| *i > 0).map(|i| (p.clone(), p[..i].to_string()))).filter(|(_, par)| !paths.contains(par)).collect();
+        if !plain_parent.is_empty() {
+            let (c, par) = rng.pick(&plain_parent).clone();
+            if rng.chance(1, 2) { sets.push(vec![c, par]); } else { sets.push(vec![par, c]); }
+        }
         let mut some: Vec<String> = paths.iter().filter(|_| rng.chance(1, 2)).cloned().collect();
         rng.shuffle(&mut some);
         sets.push(some);
